@@ -59,6 +59,9 @@ func (vc *VC) instr(ins ssa.Instruction) {
 		s := vc.e.structSort(x.X.Type())
 		si := vc.e.structs[s]
 		vc.setVal(x, sx(si.accs[x.Field], vc.v(x.X)))
+		if vc.e.cs.NonNilField[vc.nonNilKeyField(x.X.Type(), x.Field)] && canBeNil(x.Type()) {
+			vc.gfact(Not(vc.isNil(vc.val[x], x.Type())))
+		}
 	case *ssa.IndexAddr:
 		vc.indexAddr(x)
 	case *ssa.Index:
@@ -100,6 +103,9 @@ func (vc *VC) instr(ins ssa.Instruction) {
 		vc.convert(x)
 	case *ssa.MakeInterface:
 		vc.setVal(x, sx("mk_iface", IntLit(int64(vc.e.tagOf(x.X.Type()))), vc.box(vc.v(x.X), x.X.Type())))
+		if _, isPtr := x.X.Type().Underlying().(*types.Pointer); isPtr && vc.e.cs.NonNilBoxed[vc.e.typeName(x.X.Type())] {
+			vc.check("typed-nil", x.Pos(), vc.e.typeName(x.X.Type())+" boxed: "+vc.exprText(x.Pos()), Ne(vc.v(x.X), "0"), sp)
+		}
 	case *ssa.ChangeInterface:
 		vc.val[x] = vc.v(x.X)
 	case *ssa.TypeAssert:
@@ -120,7 +126,19 @@ func (vc *VC) instr(ins ssa.Instruction) {
 		vc.setArr(n, s, Sto(vc.arrCur(n, s), a, "((as const (Array Int "+vc.e.sortOf(et)+")) "+vc.e.zeroOf(et)+")"))
 		vc.setVal(x, sx("mk_slice", a, "0", ln, cp))
 		if vc.e.cs.NonNilElem[vc.e.typeName(x.Type())] {
-			vc.check("nonnil-elems", x.Pos(), "", Eq(ln, "0"), sp)
+			if ob := vc.check("nonnil-elems", x.Pos(), "", Eq(ln, "0"), sp); ob != nil {
+				ob.Detail = vc.e.typeName(x.Type())
+			}
+		}
+		if isStruct(et) {
+			st := et.Underlying().(*types.Struct)
+			for i := 0; i < st.NumFields(); i++ {
+				if k := vc.nonNilKeyField(et, i); vc.e.cs.NonNilField[k] {
+					if ob := vc.check("nonnil-elems", x.Pos(), k+" of zero elements", Eq(ln, "0"), sp); ob != nil {
+						ob.Detail = k
+					}
+				}
+			}
 		}
 	case *ssa.MakeMap:
 		mt := x.Type().Underlying().(*types.Map)
@@ -269,6 +287,7 @@ func (vc *VC) fieldAddr(x *ssa.FieldAddr) {
 		s := vc.e.structSort(st)
 		nl := &LV{arr: base.arr, sort: base.sort, idx: base.idx, typ: ft, fresh: base.fresh}
 		nl.path = append(append([]lvStep{}, base.path...), lvStep{vc.e.structs[s], x.Field})
+		nl.nnKey = vc.nonNilKeyField(st, x.Field)
 		vc.lv[x] = nl
 		vc.val[x] = "0"
 		return
@@ -319,7 +338,7 @@ func (vc *VC) indexAddr(x *ssa.IndexAddr) {
 }
 
 func (vc *VC) nonNilLoadFact(l *LV, v Term) {
-	if l.nnKey == "" || len(l.path) > 0 {
+	if l.nnKey == "" {
 		return
 	}
 	if vc.e.cs.NonNilField[l.nnKey] || vc.e.cs.NonNilElem[l.nnKey] {
@@ -384,8 +403,10 @@ func (vc *VC) store(x *ssa.Store) {
 	sp := vc.safetyProps()
 	v := vc.v(x.Val)
 	if l, ok := vc.lv[x.Addr]; ok {
-		if l.nnKey != "" && len(l.path) == 0 && (vc.e.cs.NonNilField[l.nnKey] || vc.e.cs.NonNilElem[l.nnKey]) && canBeNil(l.typ) {
-			vc.check("nonnil-store", x.Pos(), "", Not(vc.isNil(v, l.typ)), sp)
+		if l.nnKey != "" && (vc.e.cs.NonNilField[l.nnKey] || vc.e.cs.NonNilElem[l.nnKey]) && canBeNil(l.typ) {
+			if ob := vc.check("nonnil-store", x.Pos(), "", Not(vc.isNil(v, l.typ)), sp); ob != nil {
+				ob.Detail = l.nnKey
+			}
 		}
 		vc.disciplineStore(x, l, v)
 		vc.writeLV(l, v)
@@ -686,8 +707,8 @@ func (vc *VC) typeAssert(x *ssa.TypeAssert) {
 		vv := vc.fresh(x.Name()+".val", vc.e.sortOf(x.AssertedType))
 		vc.fact(Eq(vv, Ite(okc, val, vc.e.zeroOf(x.AssertedType))))
 		vc.gfact(Imp(okc, vc.typeFacts(vv, x.AssertedType)))
-		if _, isPtr := x.AssertedType.Underlying().(*types.Pointer); isPtr {
-			vc.gfact(Imp(okc, Ne(vv, "0"))) // typed nil pointers in interfaces are not produced by this package (assumption)
+		if _, isPtr := x.AssertedType.Underlying().(*types.Pointer); isPtr && vc.e.cs.NonNilBoxed[vc.e.typeName(x.AssertedType)] {
+			vc.gfact(Imp(okc, Ne(vv, "0"))) // discipline: this pointer type is never boxed as a typed nil
 		}
 		vc.tuple[x] = []Term{vv, okc}
 		vc.val[x] = "0"
@@ -696,7 +717,7 @@ func (vc *VC) typeAssert(x *ssa.TypeAssert) {
 	vc.check("type-assert", x.Pos(), "", ok, vc.safetyProps())
 	vc.setVal(x, val)
 	vc.gfact(vc.typeFacts(vc.val[x], x.AssertedType))
-	if _, isPtr := x.AssertedType.Underlying().(*types.Pointer); isPtr {
+	if _, isPtr := x.AssertedType.Underlying().(*types.Pointer); isPtr && vc.e.cs.NonNilBoxed[vc.e.typeName(x.AssertedType)] {
 		vc.gfact(Ne(vc.val[x], "0"))
 	}
 }
@@ -716,7 +737,11 @@ func (vc *VC) lookup(x *ssa.Lookup) {
 			vc.fact(Eq(okc, present))
 			vv := vc.fresh(x.Name()+".val", vc.e.sortOf(u.Elem()))
 			vc.fact(Eq(vv, res))
-			vc.gfact(vc.typeFacts(vv, u.Elem()))
+			if isStruct(u.Elem()) {
+				vc.gfact(Imp(okc, vc.typeFacts(vv, u.Elem())))
+			} else {
+				vc.gfact(vc.typeFacts(vv, u.Elem()))
+			}
 			if vc.e.cs.NonNilElem[vc.e.typeName(x.X.Type())] {
 				vc.gfact(Imp(okc, Not(vc.isNil(vv, u.Elem()))))
 			}
@@ -725,7 +750,11 @@ func (vc *VC) lookup(x *ssa.Lookup) {
 			return
 		}
 		vc.setVal(x, res)
-		vc.gfact(vc.typeFacts(vc.val[x], u.Elem()))
+		if isStruct(u.Elem()) {
+			vc.gfact(Imp(present, vc.typeFacts(vc.val[x], u.Elem())))
+		} else {
+			vc.gfact(vc.typeFacts(vc.val[x], u.Elem()))
+		}
 		if vc.e.cs.NonNilElem[vc.e.typeName(x.X.Type())] {
 			vc.gfact(Imp(present, Not(vc.isNil(vc.val[x], u.Elem()))))
 		}
@@ -744,7 +773,9 @@ func (vc *VC) mapUpdate(x *ssa.MapUpdate) {
 	m, k, v := vc.v(x.Map), vc.v(x.Key), vc.v(x.Value)
 	vc.check("nil-map", x.Pos(), "", Ne(m, "0"), sp)
 	if vc.e.cs.NonNilElem[vc.e.typeName(x.Map.Type())] && canBeNil(mt.Elem()) {
-		vc.check("nonnil-store", x.Pos(), "", Not(vc.isNil(v, mt.Elem())), sp)
+		if ob := vc.check("nonnil-store", x.Pos(), "", Not(vc.isNil(v, mt.Elem())), sp); ob != nil {
+			ob.Detail = vc.e.typeName(x.Map.Type())
+		}
 	}
 	vc.disciplineMapUpdate(x, m, k, v)
 	d, vn, ds, vs := vc.e.mapArrs(mt)
@@ -851,7 +882,9 @@ func (vc *VC) slice(x *ssa.Slice) {
 		if vc.e.cs.NonNilElem[vc.e.typeName(x.Type())] && x.Low == nil && x.High == nil && at.Len() <= 16 {
 			en, es := vc.e.elemArr(at.Elem())
 			for i := int64(0); i < at.Len(); i++ {
-				vc.check("nonnil-elems", x.Pos(), "", Not(vc.isNil(Sel(Sel(vc.arrCur(en, es), a), IntLit(i)), at.Elem())), sp)
+				if ob := vc.check("nonnil-elems", x.Pos(), "", Not(vc.isNil(Sel(Sel(vc.arrCur(en, es), a), IntLit(i)), at.Elem())), sp); ob != nil {
+					ob.Detail = vc.e.typeName(x.Type())
+				}
 			}
 		}
 	default:
